@@ -16,4 +16,7 @@ def main (args : List String) : IO UInt32 := do
   | ["proc"] => Driver.runLines Driver.Proc.runCase; return 0
   | ["groups"] => Driver.runLines Driver.Groups.runCase; return 0
   | ["acache"] => Driver.runLines Driver.AsyncCache.runCase; return 0
+  | ["stream"] => Driver.runLines Driver.Stream.runCase; return 0
+  | ["stateobj"] => Driver.runLines Driver.StateObj.runCase; return 0
+  | ["missing"] => Driver.runLines Driver.Missing.runCase; return 0
   | _ => IO.eprintln "usage: hwmodel <component>"; return 2
